@@ -40,6 +40,7 @@ type SecretRec struct {
 	touchErrNil     int // ... and the access did not return an error
 	closedSeq       int64
 	inner           securememory.Secret
+	led             *Ledger
 }
 
 // Snapshot of the mutable counters.
@@ -71,6 +72,11 @@ type Ledger struct {
 	calls  int
 	log    []LedCall
 	FailAt map[int]bool // creation call index (0-based) -> fail without allocating
+	// AccessFaults: index of a WithBytes/WithBytesFunc call (over all secrets, 0-based) -> AccessRefuse | AccessRelease
+	AccessFaults map[int]string
+	accesses     int
+	accessLog    []AccessCall
+	NoAccessLog  bool // long stress runs: do not retain the access log
 	label  atomic.Value // string
 	NoHash bool         // do not read CreateRandom secrets back (keeps mprotect traffic unchanged)
 }
@@ -95,7 +101,7 @@ func (l *Ledger) CallLog(from int) []LedCall {
 
 // NewLedger returns a ledger over inner.
 func NewLedger(inner securememory.SecretFactory) *Ledger {
-	l := &Ledger{Inner: inner, FailAt: map[int]bool{}}
+	l := &Ledger{Inner: inner, FailAt: map[int]bool{}, AccessFaults: map[int]string{}}
 	l.label.Store("")
 	return l
 }
@@ -150,6 +156,7 @@ func (l *Ledger) next(kind string) (idx int, fail bool) {
 func (l *Ledger) add(r *SecretRec) {
 	l.mu.Lock()
 	r.ID = len(l.recs)
+	r.led = l
 	l.recs = append(l.recs, r)
 	l.mu.Unlock()
 }
@@ -224,15 +231,79 @@ func (s *monSecret) exit(afterClose bool, err error) {
 	r.mu.Unlock()
 }
 
+// AccessCall is one WithBytes / WithBytesFunc call on any secret of the ledger.
+type AccessCall struct {
+	Seq    int64
+	Idx    int
+	Kind   string // with-bytes | with-bytes-func
+	Failed bool
+}
+
+// Access fault kinds: the access is refused before the callback runs (protect to read-only failed), or the
+// callback runs and its result is returned together with an error (re-protecting to no-access failed on release) -
+// the two ways the shipped secure-memory implementations fail an access.
+const (
+	AccessRefuse  = "refuse"
+	AccessRelease = "release"
+)
+
+func (l *Ledger) nextAccess(kind string) (fault string) {
+	l.mu.Lock()
+	defer l.mu.Unlock()
+	idx := l.accesses
+	l.accesses++
+	fault = l.AccessFaults[idx]
+	if !l.NoAccessLog {
+		l.accessLog = append(l.accessLog, AccessCall{Seq: Seq.Add(1), Idx: idx, Kind: kind, Failed: fault != ""})
+	}
+	return fault
+}
+
+// Accesses returns the number of secret accesses begun so far.
+func (l *Ledger) Accesses() int { l.mu.Lock(); defer l.mu.Unlock(); return l.accesses }
+
+// AccessLog returns the accesses with index >= from.
+func (l *Ledger) AccessLog(from int) []AccessCall {
+	l.mu.Lock()
+	defer l.mu.Unlock()
+	var out []AccessCall
+	for _, c := range l.accessLog {
+		if c.Idx >= from {
+			out = append(out, c)
+		}
+	}
+	return out
+}
+
 func (s *monSecret) WithBytes(action func([]byte) error) (err error) {
 	ac := s.enter()
 	defer func() { s.exit(ac, err) }()
+	switch s.rec.led.nextAccess("with-bytes") {
+	case AccessRefuse:
+		return fmt.Errorf("secret access: %w", ErrInjected)
+	case AccessRelease:
+		if err := s.rec.inner.WithBytes(action); err != nil {
+			return err
+		}
+		return fmt.Errorf("secret release: %w", ErrInjected)
+	}
 	return s.rec.inner.WithBytes(action)
 }
 
 func (s *monSecret) WithBytesFunc(action func([]byte) ([]byte, error)) (ret []byte, err error) {
 	ac := s.enter()
 	defer func() { s.exit(ac, err) }()
+	switch s.rec.led.nextAccess("with-bytes-func") {
+	case AccessRefuse:
+		return nil, fmt.Errorf("secret access: %w", ErrInjected)
+	case AccessRelease:
+		ret, err := s.rec.inner.WithBytesFunc(action)
+		if err != nil {
+			return ret, err
+		}
+		// as the shipped implementations do: the callback's result comes back together with the release error
+		return ret, fmt.Errorf("secret release: %w", ErrInjected)
+	}
 	return s.rec.inner.WithBytesFunc(action)
 }
 
